@@ -202,7 +202,7 @@ theorem key_isObj {bs pad : List Nat} {s : PState} {f : Frame} {rest : List Fram
 section two
 variable {W1 W2 : Nat} {bs pad1 pad2 : List Nat}
 
-theorem objKey_rel (ctx1 : Ctx W1 bs pad1) (ctx2 : Ctx W2 bs pad2) (hnum : NumberCorrectOn bs)
+theorem objKey_rel (ctx1 : Ctx W1 bs pad1) (ctx2 : Ctx W2 bs pad2) (hnum : NumberOK bs)
     {s1 s2 : PState} {f : Frame} {rest : List Frame} {p c : Nat}
     (a1 : At bs pad1 .key s1 (f :: rest) p c) (a2 : At bs pad2 .key s2 (f :: rest) p c)
     {cfg1 cfg2 : PState × Option Label} (e1 : step W1 s1 (.objKey c) = .ok cfg1)
@@ -262,7 +262,7 @@ theorem objKey_rel (ctx1 : Ctx W1 bs pad1) (ctx2 : Ctx W2 bs pad2) (hnum : Numbe
 
 /-! ## one step, and `runSteps` -/
 
-theorem step_rel (ctx1 : Ctx W1 bs pad1) (ctx2 : Ctx W2 bs pad2) (hnum : NumberCorrectOn bs)
+theorem step_rel (ctx1 : Ctx W1 bs pad1) (ctx2 : Ctx W2 bs pad2) (hnum : NumberOK bs)
     {s1 s2 : PState} {l1 l2 : Label} (h : CfgRel W1 W2 bs pad1 pad2 (s1, some l1) (s2, some l2))
     {cfg1 cfg2 : PState × Option Label} (e1 : step W1 s1 l1 = .ok cfg1) (e2 : step W2 s2 l2 = .ok cfg2) :
     CfgRel W1 W2 bs pad1 pad2 cfg1 cfg2 := by
@@ -299,7 +299,7 @@ theorem runSteps_none (W fuel : Nat) (s : PState) : runSteps W fuel (s, none) = 
   cases fuel <;> rfl
 
 /-- **lock-step**: from related configurations the two runs of `runSteps` return related states -/
-theorem runSteps_rel (ctx1 : Ctx W1 bs pad1) (ctx2 : Ctx W2 bs pad2) (hnum : NumberCorrectOn bs) :
+theorem runSteps_rel (ctx1 : Ctx W1 bs pad1) (ctx2 : Ctx W2 bs pad2) (hnum : NumberOK bs) :
     ∀ (f1 f2 : Nat) (cfg1 cfg2 : PState × Option Label) (t1 t2 : PState), CfgRel W1 W2 bs pad1 pad2 cfg1 cfg2 →
     runSteps W1 f1 cfg1 = .ok t1 → runSteps W2 f2 cfg2 = .ok t2 → ExitRel W1 W2 bs pad1 pad2 t1 t2 := by
   intro f1
